@@ -121,7 +121,9 @@ func genMsg(t *rapid.T, big bool) Msg {
 	}
 	classes := []string{"zero", "one", "n27", "n28", "n29", "small", "small", "literal", "k64", "pow2", "pow2"}
 	if big {
-		classes = append(classes, "max-1", "max")
+		// the last bytes below the limit, one by one (a bound which counts the
+		// header in, or is off by a few, only shows there)
+		classes = []string{"max-1", "max", "nearmax", "nearmax", "nearmax", "small"}
 	}
 	switch rapid.SampledFrom(classes).Draw(t, "plen") {
 	case "zero":
@@ -150,6 +152,8 @@ func genMsg(t *rapid.T, big bool) Msg {
 		if rapid.IntRange(0, 3).Draw(t, "multiple") == 0 {
 			m.Len = (1<<k)*rapid.IntRange(1, 3).Draw(t, "times") + rapid.IntRange(-34, 34).Draw(t, "around2")
 		}
+	case "nearmax":
+		m.Len = int(qnet.MaxPayloadSize) - rapid.IntRange(0, 70).Draw(t, "below")
 	case "max-1":
 		m.Len = int(qnet.MaxPayloadSize) - 1
 	case "max":
@@ -161,7 +165,13 @@ func genMsg(t *rapid.T, big bool) Msg {
 func genCase(t *rapid.T) Case {
 	kind := rapid.SampledFrom([]string{"roundtrip", "roundtrip", "roundtrip", "invalid", "invalid", "shortwrite", "sizemismatch", "afterfailure"}).Draw(t, "kind")
 	c := Case{Kind: kind, Plan: gen.FragPlan().Draw(t, "plan")}
-	big := vt.Thorough() && rapid.IntRange(0, 400).Draw(t, "big") == 0
+	// ten-megabyte messages are slow: one case in four hundred has one (quick: about one in a thousand)
+	oneIn := 400
+	if !vt.Thorough() {
+		oneIn = 500
+	}
+	// (the library favours small numbers: the remainder of a wide draw is close to uniform)
+	big := rapid.Uint32().Draw(t, "big")%uint32(oneIn) == uint32(oneIn-1)
 	switch kind {
 	case "roundtrip":
 		n := rapid.IntRange(1, 6).Draw(t, "n")
